@@ -145,8 +145,18 @@ func runC07(c c07Case) Verdict {
 		scratch := o.dr.Snapshot()
 		storeBefore := o.finalStore()
 		undo := scribbleVariables(scratch.Variables)
+		for k := range scratch.VisitedNodes {
+			scratch.VisitedNodes[k] += 40
+		}
+		scratch.VisitedNodes["Added By The Host"] = 7
+		for _, n := range c.Script.allNodes() {
+			scratch.VisitedNodes[n.Title] += 3
+		}
 		d1 := frozen.diff(viewSnapshot(snap))
 		d2 := sameStore(storeBefore, o.finalStore())
+		if d1 == "" {
+			d1 = frozen.diff(viewSnapshot(o.dr.Snapshot())) // (nor a snapshot taken now: the runner's own counts have not moved)
+		}
 		undo()
 		if d1 != "" {
 			return failf("changing the values of one snapshot through their pointers changed another snapshot taken at the same moment: %s%s", d1, ctx())
@@ -433,7 +443,9 @@ func prepareKeepState(c c07Case, newH func() *host, nc *int) *host {
 
 var snapScriptOpts = scriptOpts{maxNodes: 4, maxDepth: 3, maxBody: 4, tracking: true, visitText: true, enterProbe: true, endWithJump: 3, firstLine: true, shadow: true,
 	extraStmt: func(g *scriptGen, depth int) *Stmt {
-		switch rapid.IntRange(0, 7).Draw(g.t, "snapstmt") {
+		switch rapid.IntRange(0, 8).Draw(g.t, "snapstmt") {
+		case 8:
+			return &Stmt{K: "call", Fn: "clamp", Args: []*Expr{varRef(rapid.SampledFrom([]string{"k1", "k2"}).Draw(g.t, "v"))}}
 		case 6, 7:
 			// zero with the other sign: equal under ==, shown alike, but a different value (1/$k1 tells them apart); a restore
 			// that skips "unchanged" variables must not take one for the other
@@ -489,6 +501,32 @@ var c07Snap = Register(Prop[c07Case]{
 			}
 			start.Body = append(append([]*Stmt{start.Body[0]}, sets...), start.Body[1:]...)
 			c.Vars = map[string]mval{}
+		}
+		if rapid.IntRange(0, 5).Draw(t, "untitled") == 0 {
+			// a start node without a title header (it has another header): its name is the empty string, and a node like any other
+			start := c.Script.allNodes()[0]
+			// (copies of the start node's title further down have no entry probe and must stay unreachable: they go)
+			for fi, file := range c.Script.Files {
+				var keep []*Node
+				for _, n := range file {
+					if n == start || n.Title != start.Title {
+						keep = append(keep, n)
+					}
+				}
+				c.Script.Files[fi] = keep
+			}
+			var files [][]*Node
+			for _, file := range c.Script.Files {
+				if len(file) > 0 {
+					files = append(files, file)
+				}
+			}
+			c.Script.Files = files
+			c.Script.FileTags = nil
+			start.Title = ""
+			if len(start.Headers) == 0 {
+				start.Headers = append(start.Headers, [2]string{"colour", "red and blue"})
+			}
 		}
 		c.K = rapid.IntRange(0, 14).Draw(t, "k")
 		c.Receiver = rapid.SampledFrom([]string{"fresh", "steps", "steps", "until-options", "until-options", "until-wait", "until-wait", "until-end"}).Draw(t, "receiver")
